@@ -75,6 +75,7 @@ void ClockDevice::build() {
   ref.outstanding = false; ref.haveStale = false;
   keep.reset();
   sync.boot(cfg, t);
+  timeoutSnapshotValid = false; prevLoopT = -1;
   lastPollT = t;
   built = true;
   setMillis();
@@ -213,6 +214,18 @@ void ClockDevice::doLoop(int opIndex, Verdict& v, Coverage& cov) {
   if (sentFirst && cfg.ref != 0) onSend();
   const bool sentNow = sent && !both;
 
+  // When exactly a request counts as timed out is the implementation's call (">= timeout" in the shipped code;
+  // "> timeout" would keep the property just as well). If the model has declared a time-out but nothing was sent
+  // since, and the answer only became ready after the previous loop() call, then consuming it now is the same
+  // ready-at-the-time-out race as rule 4: the model takes its time-out back and treats the read as a normal one.
+  // An answer that was already ready at an earlier call and was ignored then is a different matter (below).
+  if (readValid && !sent && sync.phase == SyncModel::IDLE && sync.after == SyncModel::FAILURE && timeoutSnapshotValid
+      && readyAtBefore > prevLoopT) {
+    sync = syncBeforeTimeout;
+    timeoutSnapshotValid = false;
+    cov.count("probe.timeout_taken_back");
+  }
+  if (sent) timeoutSnapshotValid = false;
   const bool lateAnswer = sync.phase == SyncModel::IDLE && sync.after == SyncModel::FAILURE && readValid;
   if (lateAnswer) {
     cov.count("probe.late_answer_read_after_giveup");
@@ -277,7 +290,9 @@ void ClockDevice::doLoop(int opIndex, Verdict& v, Coverage& cov) {
   if (sync.phase == SyncModel::IDLE) {
     if (sentNow) {
       onSend();
-    } else if (now >= sync.dueMax) {
+    } else if (now > sync.dueMax) {
+      // counted only once simulated time has moved past the deadline: several loop() calls may fall into the very
+      // millisecond of the deadline, and an implementation whose comparisons are strict makes no progress in them
       sync.overdue++;
       if (sync.overdue > 2) {
         v.fail("c14-liveness", fmt("t=%lld ms: the latest admissible time for the next request was "
@@ -307,13 +322,14 @@ void ClockDevice::doLoop(int opIndex, Verdict& v, Coverage& cov) {
     } else if (!readyBefore && late) {
       cov.count(kindBefore == RefPlan::LOST ? "fault.ref_lost" : "fault.ref_late");
       sawFail = true;
+      syncBeforeTimeout = sync; timeoutSnapshotValid = true;
       sync.fail(now);
     } else if (readyBefore && late && readyAtBefore >= sync.start + (int64_t)cfg.tmo) {
       // rule 4: the answer became ready only at/after the time-out instant and this is the first
       // call to see either: applying it and giving up are both accepted
       cov.count("fault.ref_race_timeout");
       sawFail = true;
-      sync.fail(now);
+      sync.fail(now);   // the answer was visibly ready and was passed over: no taking back
     } else if (readyBefore) {
       // the answer arrived in time (possibly seen late because loop() was called late): it is a
       // valid, not-late response and must be consumed
@@ -325,6 +341,7 @@ void ClockDevice::doLoop(int opIndex, Verdict& v, Coverage& cov) {
     }
   }
   if (both && !sentFirst) onSend();   // the old answer was read first, then a new request went out
+  prevLoopT = now;
 }
 
 bool ClockDevice::exec(const std::vector<std::string>& toks, int opIndex, Verdict& v, Coverage& cov) {
@@ -417,6 +434,7 @@ bool ClockDevice::exec(const std::vector<std::string>& toks, int opIndex, Verdic
       int64_t dl = sync.nextDeadline(t, ref.outstanding ? ref.readyAt : SimRefClock::kNever);
       if (dl > t + 70000000) dl = t + 70000000;
       if (dl > t) advance(dl - t, cov);
+      else advance(1, cov);   // the deadline is now or past: let one millisecond go by between calls
       doLoop(opIndex, v, cov);
       calls++;
     }
@@ -426,7 +444,7 @@ bool ClockDevice::exec(const std::vector<std::string>& toks, int opIndex, Verdic
           "the model's deadlines over %lld simulated ms produced no successful sync",
           (long long)t0, calls, (long long)(t - t0)), opIndex);
     }
-    int64_t bound = (int64_t)(cfg.init > cfg.sync ? cfg.init : cfg.sync) * 1000 + cfg.tmo + 1000;
+    int64_t bound = (int64_t)(cfg.init > cfg.sync ? cfg.init : cfg.sync) * 1000 + cfg.tmo + 1000 + 14;
     if (!v.violated && t - t0 > bound) {
       v.fail("c14-liveness-final", fmt("successful sync only %lld ms after faults stopped; bound is %lld",
           (long long)(t - t0), (long long)bound), opIndex);
